@@ -288,7 +288,8 @@ class CreateFromOp(clib.Op):
             rs = out.value
             src2, sol = rs[0], rs[-1]
             y2 = rs[1] if len(rs) == 3 else None
-            I.oblige('fresh', bool(all(x.fresh for x in rs) and src2 is not S.obj), 'property')
+            # (an argument handed back untouched when nothing is drawn from it is fine: `frame` forbids any write)
+            I.oblige('fresh', bool(sol.fresh), 'property', note='the new solution is a new object')
             sol_amt = {s: amt_of(sol, s)[0] for s in allkeys}
             src_amt = {s: amt_of(src2, s)[0] for s in allkeys}
             tol = z3.RealVal('1/1000000')
